@@ -168,7 +168,19 @@ func genUniverse(r *rand.Rand, p profile, mutOK bool) Universe {
 	add(0.25, Entry("Deployment", otherNS, "dep-a"))
 	add(0.4, Entry("ClusterRole", "", "cr-a"))
 	if chance(r, p.pInvalid) {
-		switch r.Intn(3) {
+		switch r.Intn(7) {
+		case 3:
+			// an apiVersion the mapper does not know, of a kind it knows; a valid object of that kind is there too
+			if !hasEntry(es, "Deployment", invNS, "dep-a") {
+				es = append(es, Entry("Deployment", invNS, "dep-a"))
+			}
+			es = append(es, EntryInvalid("apps/v9", "Deployment", invNS, []string{"dep-0", "dep-v9"}[r.Intn(2)]))
+		case 4:
+			es = append(es, EntryInvalid("example.io/v1", "Gadget", invNS, "gadget-a"))
+		case 5:
+			es = append(es, EntryInvalid("v1", "ConfigMap", invNS, "")) // no name
+		case 6:
+			es = append(es, EntryInvalid("v1", "", invNS, "nokind")) // no kind
 		case 0:
 			// a Namespace manifest with metadata.namespace set; it replaces the well-formed Namespace of that name
 			n := es[:0]
@@ -1476,6 +1488,25 @@ func (c *collector) corpus() {
 			c.fixedHistory(ux, Cluster{NextUID: 100}, []fixedRun{{local: all3(dep), opts: plain, faults: []FAddr{{Kind: "FApply", I: 3 - dep}}}})
 			c.fixedHistory(ux, Cluster{NextUID: 100}, []fixedRun{{local: all3(dep), opts: Opts{Prune: true, Policy: PMustMatch, RecTimeout: true}, stall: []int{3 - dep}}})
 		}
+	}
+	// 19. other spellings of a field-invalid manifest: unknown apiVersion of a known kind after / before a
+	// valid object of that kind, unknown kind, no name, no kind; SkipInvalid and ExitEarly
+	for _, vp := range []ValPol{VSkipInvalid, VExitEarly} {
+		for _, name := range []string{"dep-0", "dep-v9"} { // sorts before / after dep-a
+			ui := NewUniverse([]UEntry{Entry("Deployment", invNS, "dep-a"), EntryInvalid("apps/v9", "Deployment", invNS, name), Entry("ConfigMap", invNS, "cm-a")})
+			var ls []LObj
+			for i, e := range ui {
+				ls = append(ls, LObj{ID: i, FInv: e.FInv, Ver: 1})
+			}
+			c.fixedHistory(ui, Cluster{NextUID: 100}, []fixedRun{{local: ls, opts: Opts{Prune: true, Policy: PMustMatch, ValPol: vp}}})
+		}
+		ui := NewUniverse([]UEntry{Entry("ConfigMap", invNS, "cm-a"), EntryInvalid("example.io/v1", "Gadget", invNS, "gadget-a"),
+			EntryInvalid("v1", "ConfigMap", invNS, ""), EntryInvalid("v1", "", invNS, "nokind")})
+		var ls []LObj
+		for i, e := range ui {
+			ls = append(ls, LObj{ID: i, FInv: e.FInv, Ver: 1})
+		}
+		c.fixedHistory(ui, Cluster{NextUID: 100}, []fixedRun{{local: ls, opts: Opts{Prune: true, Policy: PMustMatch, ValPol: vp}}})
 	}
 	// a plain round trip: apply two, apply one (prune), destroy
 	c.fixedHistory(u, Cluster{NextUID: 100}, []fixedRun{
